@@ -60,8 +60,10 @@ type FuncContract struct {
 	Pkg         string
 	Assumed     bool
 	Iface       bool // contract of an interface method (justified by its verified implementations)
+	Auto        bool // synthesised empty contract (guard sweep)
 	Inline      bool
 	NoPanic     bool
+	NoLocks     bool // called (and entered) with no lock of the tracked mutexes held by this goroutine
 	NoOverflow  bool
 	Pure        bool // modifies nothing (shorthand)
 	Mode        string
@@ -87,20 +89,22 @@ type ContractDB struct {
 	LemmaOrder []string
 	Guards []GuardDecl
 	Regions map[string][]string
+	PurePrefixes []string // packages whose functions/interface methods are assumed not to modify tracked state
 }
 
 type GuardDecl struct {
 	Field string // "Type.field"
 	Mutex string // "Type.field" of the mutex
 	Pkg   string
+	Props []string
 }
 
 func NewContractDB() *ContractDB {
 	return &ContractDB{Funcs: map[string]*FuncContract{}, Specs: map[string]*SpecFunc{}, Preds: map[string]*Pred{}, Lemmas: map[string]*Lemma{}, Regions: map[string][]string{}}
 }
 
-var topKW = map[string]bool{"spec": true, "pred": true, "def": true, "lemma": true, "axiom": true, "func": true, "assumed": true, "interface": true, "region": true, "guarded": true, "props": true}
-var clauseKW = map[string]bool{"requires": true, "ensures": true, "modifies": true, "nopanic": true, "nooverflow": true, "inline": true, "loop": true, "use": true, "mode": true, "by": true, "prop": true, "pure": true, "ghost": true}
+var topKW = map[string]bool{"spec": true, "pred": true, "def": true, "lemma": true, "axiom": true, "func": true, "assumed": true, "interface": true, "region": true, "guarded": true, "props": true, "purepkg": true}
+var clauseKW = map[string]bool{"requires": true, "ensures": true, "modifies": true, "nopanic": true, "nooverflow": true, "inline": true, "loop": true, "use": true, "mode": true, "by": true, "prop": true, "pure": true, "ghost": true, "nolocks": true}
 
 type rawItem struct {
 	kw      string
@@ -215,6 +219,8 @@ func (db *ContractDB) LoadContracts(path, pkgPath string) error {
 		switch it.kw {
 		case "props":
 			props = strings.Fields(it.head)
+		case "purepkg":
+			db.PurePrefixes = append(db.PurePrefixes, strings.Fields(it.head)...)
 		case "spec", "pred", "def":
 			// name(params) [ret] = body
 			eq := strings.Index(it.head, "=")
@@ -308,7 +314,7 @@ func (db *ContractDB) LoadContracts(path, pkgPath string) error {
 				return fmt.Errorf("%s: bad guarded declaration", where)
 			}
 			for _, fld := range strings.Split(parts[0], ",") {
-				db.Guards = append(db.Guards, GuardDecl{Field: strings.TrimSpace(fld), Mutex: strings.TrimSpace(parts[1]), Pkg: pkgPath})
+				db.Guards = append(db.Guards, GuardDecl{Field: strings.TrimSpace(fld), Mutex: strings.TrimSpace(parts[1]), Pkg: pkgPath, Props: props})
 			}
 		case "region":
 			parts := strings.SplitN(it.head, "=", 2)
@@ -352,6 +358,8 @@ func (db *ContractDB) LoadContracts(path, pkgPath string) error {
 				case "pure":
 					fc.HasModifies = true
 					fc.Pure = true
+				case "nolocks":
+					fc.NoLocks = true
 				case "nopanic":
 					fc.NoPanic = true
 				case "nooverflow":
